@@ -1506,3 +1506,106 @@ func (g *gen) soup(b *qb) *qb {
 func (b *qb) pickWS() string {
 	return vh.Pick(b.r, []string{" ", " ", "  ", "\n", "\t", " \t", "\r\n", " \n "})
 }
+
+// ---------------------------------------------------------------- fixed corpus (seed independent)
+
+// lex splits a corpus statement into the token kinds of the grammar.
+func lex(s string) []tok {
+	var out []tok
+	isW := func(c byte) bool { return c == '_' || (c >= 'a' && c <= 'z') || (c >= 'A' && c <= 'Z') }
+	isD := func(c byte) bool { return c >= '0' && c <= '9' }
+	isS := func(c byte) bool { return c == ' ' || c == '\t' || c == '\n' || c == '\r' }
+	for i := 0; i < len(s); {
+		c := s[i]
+		j := i + 1
+		k := byte('p')
+		switch {
+		case isW(c):
+			for j < len(s) && (isW(s[j]) || isD(s[j])) {
+				j++
+			}
+			k = 'w'
+		case isD(c):
+			for j < len(s) && isD(s[j]) {
+				j++
+			}
+			k = 'n'
+		case isS(c):
+			for j < len(s) && isS(s[j]) {
+				j++
+			}
+			k = 's'
+		case c == '\'' || c == '"':
+			for j < len(s) {
+				if s[j] == c {
+					if j+1 < len(s) && s[j+1] == c {
+						j += 2
+						continue
+					}
+					break
+				}
+				j++
+			}
+			j++
+			k = 'l'
+			if c == '"' {
+				k = 'q'
+			}
+		case c == '/' && j < len(s) && s[j] == '*':
+			j = i + 2 + strings.Index(s[i+2:], "*/") + 2
+			k = 'b'
+		case c == '-' && j < len(s) && s[j] == '-':
+			for j < len(s) && s[j] != '\n' {
+				j++
+			}
+			k = 'c'
+		}
+		out = append(out, tok{k, s[i:j]})
+		i = j
+	}
+	return out
+}
+
+type corpusStmt struct {
+	hazard string
+	sql    string
+	base   []string // names of the base-table references, as written
+	ctes   []string
+	order  bool
+	hdrs   []string // header modes to run ("" = none)
+}
+
+// one minimal statement per confirmed class: the primary keys of every class fire in every run
+var corpus = []corpusStmt{
+	{"rp-text", "SELECT rid, cnt AS read_parquet_cnt FROM cpu ORDER BY rid", []string{"cpu"}, nil, true, []string{"", "prod"}},
+	{"rp-text", "SELECT rid FROM cpu WHERE host <> 'read_parquet' ORDER BY rid", []string{"cpu"}, nil, true, []string{"", "prod"}},
+	{"comma-join", "SELECT a.rid, b.rid FROM cpu a, mem b WHERE a.host = b.host ORDER BY a.rid, b.rid", []string{"cpu", "mem"}, nil, true, []string{"", "prod"}},
+	{"distinct-from", "SELECT a.rid FROM disk a WHERE a.host IS DISTINCT FROM NULL ORDER BY a.rid", []string{"disk"}, nil, true, []string{"", "prod"}},
+	{"cte-shadow", "SELECT a.rid, s.k FROM cpu a JOIN (WITH cpu AS (SELECT 1 AS k) SELECT k FROM cpu) s ON a.cnt >= s.k ORDER BY a.rid", []string{"cpu"}, []string{"cpu"}, true, []string{"", "prod"}},
+	{"cte-quoted", "WITH \"t1\" AS (SELECT rid, cnt FROM mem) SELECT rid, cnt FROM t1 ORDER BY rid", []string{"mem"}, []string{"t1"}, true, []string{"", "prod"}},
+	{"lateral-newline", "SELECT a.rid, b.rid FROM cpu a JOIN LATERAL\n(SELECT rid, host FROM mem) b ON a.host = b.host ORDER BY a.rid, b.rid", []string{"cpu", "mem"}, nil, true, []string{"", "prod"}},
+	{"comment-before-last-byte", "SELECT rid FROM cpu ORDER BY rid LIMIT /* c */9", []string{"cpu"}, nil, true, []string{"", "prod"}},
+	{"table-qualified-col", "SELECT cpu.rid, mem.rid FROM cpu JOIN mem ON cpu.host = mem.host ORDER BY cpu.rid, mem.rid", []string{"cpu", "mem"}, nil, true, []string{"", "prod"}},
+	{"mixed-case", "SELECT rid, cnt FROM Disk WHERE cnt >= 0 ORDER BY rid", []string{"Disk"}, nil, true, []string{"", "prod"}},
+	{"mixed-case", "SELECT a.rid, b.rid FROM cpu a JOIN \"MEM\" b ON a.host = b.host ORDER BY a.rid, b.rid", []string{"cpu", "MEM"}, nil, true, []string{"", "prod"}},
+	{"fastpath-partial", "SELECT rid FROM cpu\nUNION ALL\nSELECT rid FROM\ndisk", []string{"cpu", "disk"}, nil, false, []string{"prod"}},
+	{"fastpath-partial", "SELECT rid, cnt FROM\ncpu WHERE rid IN (SELECT rid FROM cpu) ORDER BY rid", []string{"cpu", "cpu"}, nil, true, []string{"prod"}},
+	{"fastpath-cr", "SELECT rid, cnt FROM \r\ncpu ORDER BY rid", []string{"cpu"}, nil, true, []string{"prod"}},
+	{"with-newline", "WITH\nrecent AS (SELECT rid, host FROM mem WHERE host <> 'x')\nSELECT rid FROM recent ORDER BY rid", []string{"mem"}, []string{"recent"}, true, []string{"prod"}},
+	{"tablefunc", "SELECT g FROM range(1, 3) t(g) ORDER BY g", nil, nil, true, []string{"prod"}},
+}
+
+func (cs corpusStmt) build() *qb {
+	b := &qb{feats: map[string]bool{}, hazard: cs.hazard, order: cs.order}
+	b.toks = lex(cs.sql)
+	for _, n := range cs.base {
+		b.refs = append(b.refs, refAnn{base: true, tbl: n, meas: strings.ToLower(n)})
+	}
+	for _, n := range cs.ctes {
+		b.refs = append(b.refs, refAnn{base: false, tbl: n})
+	}
+	if len(cs.ctes) > 0 {
+		b.feats["cte"] = true
+	}
+	return b
+}
